@@ -13,7 +13,7 @@
    [handle_ok h]: the handle of a resizable dataset as CreateDataset
    builds it.  Both are preserved by every call (C13H_resize_decodes, C13H_resizes_last_accepted). *)
 From HV Require Import Base.Prelude Base.Outcome Base.Bytes Model.CodecMsg Model.CodecOhdr Model.Resize.
-From HV Require Import Proofs.ResizeBase Proofs.Resize Proofs.ResizeThms.
+From HV Require Import Model.ResizeTie Proofs.ResizeBase Proofs.Resize Proofs.ResizeThms Proofs.ResizeTie.
 
 (* (1) the call succeeds iff the request has the rank of the dataset, no zero extent, and every extent is within
    the declared maximum (Unlimited accepts every uint64) *)
@@ -87,3 +87,10 @@ Theorem C13H_resizes_last_accepted : forall be h file addr flags before after pr
     stored file' addr flags before after (rh_dims h') (rh_maxdims h') pre suf /\ handle_ok h' = true.
 Proof. exact resizes_last_accepted. Qed.
 Print Assumptions C13H_resizes_last_accepted.
+
+(* the hypotheses are decidable on a concrete image: the unit tie (tools/props/c13unit.py) evaluates stored_ok and
+   handle_ok on every header image the implementation has in front of a Resize call; stored_ok is sound *)
+Theorem C13H_stored_ok_sound : forall img dims maxd, stored_ok img dims maxd = true ->
+  exists flags before after suf, stored img 0 flags before after dims maxd [] suf.
+Proof. exact stored_ok_sound. Qed.
+Print Assumptions C13H_stored_ok_sound.
